@@ -296,6 +296,12 @@ def rule_routing(run, F, cfg):
     run.ob("C01.5.routing-total", "every-live-rule-stored", not lost and n >= 50,
            f"every parsed, non-cancelled rule ({n} feasible flag valuations) is stored in at least one list "
            f"(lost: {lost[:3]})", config=cfg)
+    amb = R.ambiguous(tn)
+    run.ob("C01.5.routing-total", "no-unmodelled-drop", amb is None,
+           "whether and where a rule is stored depends only on its own flags: no path of Blocker::new drops or "
+           "re-routes a rule because of other rules (de-duplication sets etc.)"
+           + (f"; valuation {R.fmt_val(amb[0])} leads to {[sorted(x) for x in amb[1]]} depending on {amb[2][:3]}" if amb else ""),
+           site="src/blocker.rs Blocker::new", config=cfg, status=None if amb is None else "UNDISCHARGED")
     # every list is probed by some query
     probed = set()
     for f in F.fns.values():
